@@ -11,6 +11,8 @@ Line-protocol driver for the dependency-check model (C04).
   check <id> <expr tokens…>  -> ok loop | ok clear | err fuel        (check_loops alone, nothing installed)
   restore ; <id> <0|1|-> <-|empty|bad|expr tokens…> ; …     (PUT /ports, one `;`-separated group per entry)
                              -> same replies as `set`
+  unload <id>                (save + remove(persisted_data=False): the port goes away, its persisted record stays)
+  load <id>                  (core.ports.load for an absent port with a persisted record)  -> same replies as `set`
   push | pop                 -> ok        (save the hub on a stack / restore the last saved hub: lets the harness try
                                            every serial order of a batch of concurrently submitted assignments)
   dump                       -> ok <id>|<0/1>|<printed expression or ->  … separated by tabs, registration order
@@ -93,41 +95,43 @@ def fmtHub (h : Hub) : String :=
     p.id ++ "|" ++ (if p.enabled then "1" else "0") ++ "|" ++ (match p.expr with | some e => e.print | none => "-"))
 
 structure DState where
-  hub : Hub := Hub.empty
-  stack : List Hub := []
+  sys : Sys := {}
+  stack : List Sys := []
 
-def apply (d : DState) (op : Op) : DState × String :=
-  let (h', o) := step d.hub op
-  ({ d with hub := h' }, fmtOutcome o)
+def apply (d : DState) (op : SOp) : DState × String :=
+  let (s', o) := sstep d.sys op
+  ({ d with sys := s' }, fmtOutcome o)
 
 def dstep (d : DState) : List String → DState × String
   | ["begin"] => ({}, "ok")
-  | ["push"] => ({ d with stack := d.hub :: d.stack }, "ok")
+  | ["push"] => ({ d with stack := d.sys :: d.stack }, "ok")
   | ["pop"] =>
     match d.stack with
-    | h :: rest => ({ hub := h, stack := rest }, "ok")
+    | s :: rest => ({ sys := s, stack := rest }, "ok")
     | [] => (d, "bad-op")
-  | ["add", id] => apply d (.addPort id)
-  | ["del", id] => apply d (.removePort id)
-  | ["clr", id] => apply d (.clear id)
-  | ["en", id, "0"] => apply d (.setEnabled id false)
-  | ["en", id, "1"] => apply d (.setEnabled id true)
-  | ["reload"] => apply d .reload
-  | ["dump"] => (d, fmtHub d.hub)
-  | ["restore"] => apply d (.restore [])
+  | ["add", id] => apply d (.hub (.addPort id))
+  | ["del", id] => apply d (.hub (.removePort id))
+  | ["clr", id] => apply d (.hub (.clear id))
+  | ["en", id, "0"] => apply d (.hub (.setEnabled id false))
+  | ["en", id, "1"] => apply d (.hub (.setEnabled id true))
+  | ["reload"] => apply d (.hub .reload)
+  | ["unload", id] => apply d (.unload id)
+  | ["load", id] => apply d (.load id)
+  | ["dump"] => (d, fmtHub d.sys.hub)
+  | ["restore"] => apply d (.hub (.restore []))
   | "restore" :: ";" :: toks =>
     match (splitGroups toks).mapM decodeEntry with
-    | some entries => apply d (.restore entries)
+    | some entries => apply d (.hub (.restore entries))
     | none => (d, "bad-op")
-  | ["set", id, "bad"] => apply d (.assign id none)
+  | ["set", id, "bad"] => apply d (.hub (.assign id none))
   | "set" :: id :: toks =>
     match decode toks with
-    | some e => apply d (.assign id (some e))
+    | some e => apply d (.hub (.assign id (some e)))
     | none => (d, "bad-op")
   | "check" :: id :: toks =>
     match decode toks with
     | some e =>
-      match checkLoops d.hub id e with
+      match checkLoops d.sys.hub id e with
       | .loop => (d, "ok loop")
       | .ok => (d, "ok clear")
       | .fuel => (d, "err fuel")
